@@ -1772,12 +1772,20 @@ def check_hygiene(h, f=None):
         b = a.get('before')
         s = f.sess.get(sid)
         dead = b is None or b['closed']
+        if s is not None and not s['accepted']:
+            dead = True     # by the model: a rejected id is never live
+        if s is not None and s['accepted'] and s['disconnect'] and \
+                s['disconnect'][0].get('seq_end', s['disconnect'][0]['seq']) \
+                < a['seq_start'] and \
+                s['disconnect'][0]['t'] < a['t_start'] - EPS:
+            dead = True     # by the model: disconnected before the call
         racing = b is not None and b['closing'] and not b['closed']
         if s is not None and s['disconnect'] and not dead:
             d = s['disconnect'][0]
             if abs(d['t'] - a['t_start']) <= EPS:
                 racing = True
-        if s is not None and not s['accepted'] and b is not None:
+        if s is not None and not s['accepted'] and b is not None and \
+                abs(s['connect'][0]['t'] - a['t_start']) <= EPS:
             racing = True       # inside the rejecting connect handler
         if racing:
             continue
